@@ -29,6 +29,8 @@ HEADER = C.HEADER_IV + 'From TV Require Import Model_C08 Exec_C08.\n'
 def us_for(rng):
     us = [0.0, 1.0, 0.5, 0.25, 0.75, 2.0 ** -20, 1 - 2.0 ** -20]
     us += [rng.random() for _ in range(4)]
+    # the tails: a sampler may hand over any double in (0, 1); the map must be the inverse CDF there too
+    us += rng.sample([1e-300, 1e-100, 1e-20, 1e-16, 5e-17, 3e-17, 1e-13, 1e-9, 1 - 2.0 ** -53, 1 - 1e-12, 1 - 1e-9], 4)
     return us
 
 
@@ -129,6 +131,13 @@ def run(ctx):
                     [float(direct.sample(u)) for u in us] != samples:
                 ctx.violation('text-vs-direct:' + kind, 'prior built from text differs from direct construction',
                               replay=rp)
+        # monotone on the implementation itself: u < v  =>  sample(u) <= sample(v), strictly for the Gaussian family
+        pairs = sorted((u, s_) for u, s_ in zip(us, samples) if (0 < u < 1) or not gauss)
+        for (u1, s1), (u2, s2) in zip(pairs, pairs[1:]):
+            if u1 < u2 and (s1 > s2 or (gauss and not s1 < s2) or not math.isfinite(s1) or not math.isfinite(s2)):
+                ctx.violation('monotone:' + kind, 'prior %s: sample(%r) = %r, sample(%r) = %r' % (kind, u1, s1, u2, s2),
+                              replay=rp)
+                break
         uq = []
         keep = []
         for u, s in zip(us, samples):
